@@ -172,13 +172,17 @@ def run(repo, rep, tier):
     okfree = {'SSH2_KexDB.get_db', 'SSH2_KexDB.FAIL_UNKNOWN', 'Algorithm.get_since_text'}
     rep.check('locality', 'JSON renderer: notes depend only on (table, category, name)', free <= okfree and (R2 & p2) <= {'algorithm', 'alg_type'}, fn,
               'fetch_notes depends on %s' % sorted((free - okfree) | ((R2 & p2) - {'algorithm', 'alg_type'})), sample={'rule': 'locality', 'function': 'fetch_notes', 'free': sorted(free)})
+    # the JSON view asks for the notes of the list element itself and the category of the list it came from (build_struct interpreted, props/_sections.py)
+    from props import _sections
+    res, lists = _sections.run_build_struct(repo, 2)
     ncall = 0
-    for n in walk_no_nested(bs):
-        if isinstance(n, ast.Call) and call_name(n) == 'fetch_notes':
+    for cat, src in (('kex', 'kex.kex_algorithms'), ('key', 'kex.key_algorithms'), ('enc', 'kex.server.encryption'), ('mac', 'kex.server.mac')):
+        ents = res.get(cat) if isinstance(res.get(cat), list) else []
+        for e in ents:
             ncall += 1
-            lp = [t for t, p, k in path_condition(n) if k == 'for']
-            ok = len(n.args) == 2 and isinstance(n.args[1], ast.Constant) and len(lp) == 1 and unparse(n.args[0]) == unparse(lp[0]._parent.target if hasattr(lp[0], '_parent') and isinstance(lp[0]._parent, ast.For) else n.args[0])
-            rep.check('locality', 'fetch_notes called with the loop element and a literal category: %s' % unparse(n), ok, n, 'fetch_notes call is not (element, literal category)')
+            ok = isinstance(e, dict) and e.get('notes') == ('notes', e.get('algorithm'), cat)
+            rep.check('locality', 'JSON %s: the notes of an entry are looked up for (that name, %r)' % (cat, cat), ok, bs, 'fetch_notes for the %s entry %r is called with %r' % (cat, e.get('algorithm') if isinstance(e, dict) else e, e.get('notes') if isinstance(e, dict) else None),
+                      stmt='json notes lookup %s' % cat)
     rep.floor('locality', 'fetch_notes call sites', ncall, 4)
 
     # the row consulted is alg_db[<category parameter>][...] in both renderers
@@ -194,13 +198,13 @@ def run(repo, rep, tier):
     rep.samples.append({'rule': 'name-match', 'wildcard_categories': {k: len(v) for k, v in wc.items()}})
     sites = name_match_sites(repo)
     rep.floor('name-match', 'name matching sites', len(sites), 4)
-    text_sites = [s for s in sites if s['func'] == 'ssh_audit:output_algorithm']
-    rep.check('name-match', 'text renderer normalises gss-* names before the table lookup', bool(text_sites) and all(s['normalises'] for s in text_sites), text_sites[0]['node'] if text_sites else oa,
-              'text renderer no longer normalises gss-* names although the table has wildcard rows')
+    # (that both renderers rate a gss-* instance from its wildcard row is decided by the interpretation models above: 'gss-gex-sha1-AbC+d==' is in the scenario family)
     for s in sites:
         rep.saw(s['node'])
-        if s['func'] == 'ssh_audit:output_algorithm':
+        if s['func'] in ('ssh_audit:output_algorithm', 'ssh_audit:build_struct.fetch_notes'):
             continue
+        if s['func'].startswith('ssh_audit:post_process_findings') and s.get('category') is None:
+            continue            # Terrapin classification: ranges over cipher / MAC names (no wildcard rows); its behaviour is decided by C04's decision table
         if s['func'] == 'algorithms:Algorithms.get_recommendations':
             continue            # reported under C13 (rule name-match there)
         if s['func'] == 'algorithms:Algorithms.get_ssh_timeframe':
